@@ -10,7 +10,7 @@ PROPS_MODULE = 'SympdeModel.Props.C06'
 RULE = ('random bilinear forms, linear forms and functionals over scalar, vector and product spaces (1-3 arguments, '
         'dimension 2 and 3; square and rectangular block systems, down to one row or one column), sums of domain and '
         'boundary integrals written as plain sums, as differences and as accumulations starting from 0, unions of faces, '
-        'two-patch domains, coefficient fields and constants, plus vanishing forms and a fixed corpus of such forms; a case '
+        'two-patch domains, integrals over an empty region set next to ordinary ones, coefficient fields and constants, plus vanishing forms and a fixed corpus of such forms; a case '
         'is one form; the monomials of each lowered region integrand are tagged '
         'with their test / trial component and sent to the model; non-trivial = at least 2 regions or at least 2 blocks; '
         'distinct by printed form')
@@ -30,6 +30,26 @@ def _api():
     from sympde.expr.evaluation import TerminalExpr, _unpack_functions, InterfaceExpression
     from sympde.core import Constant
     return locals()
+
+
+class Empty:
+    """an EMPTY set of integration regions, obtained the way user code obtains one (the interfaces of a single-patch
+    domain, what is left of the boundary once all of it has been taken away, a union of no faces); `value` is
+    whatever the library returns for it and is what is handed to `integral`.  An integral over it contributes
+    nothing: the expected table of region integrands simply has no entry for it (added after seeded change
+    C06-10, where such an integral raised instead of being zero)"""
+
+    def __init__(self, label, value):
+        self.label, self.value = label, value
+
+    def __repr__(self):
+        return 'EMPTY[%s]' % self.label
+
+    __str__ = __repr__
+
+
+def is_empty(reg):
+    return isinstance(reg, Empty)
 
 
 class World:
@@ -63,6 +83,12 @@ class World:
         self.coords = list(dom.coordinates)
         self.I = dom.interfaces if two_patch else None
         self.side_faces = [self.I.minus, self.I.plus] if two_patch else []
+        # empty region sets (see Empty): no Neumann part when the whole boundary is Dirichlet, no face selected,
+        # and - on a single patch - no interface
+        self.empties = [Empty('boundary.complement(boundary)', dom.boundary.complement(dom.boundary)),
+                        Empty('Union()', m['Union']())]
+        if not two_patch:
+            self.empties.append(Empty('interfaces', dom.interfaces))
 
 
 def coef(rng, w):
@@ -193,7 +219,35 @@ def gen_form(rng, w):
             ints.append((w.I, w.csts[0] * jump(u0) * jump(v0)))
             for fc in rng.sample(w.side_faces, rng.choice([1, 2])):
                 ints.append((fc, coef(rng, w) * u0 * v0))
+    if kind != 'functional' and rng.random() < 0.12:
+        # a form written generically (volume + Neumann boundary + interface terms) on a domain where one of these
+        # region sets is empty: the integral over it contributes nothing (added after seeded change C06-10)
+        ints.insert(rng.randrange(len(ints) + 1), empty_integral(rng, w, kind, tests, trials))
     return kind, tests, trials, ints, gen_style(rng, kind, len(ints))
+
+
+def empty_integral(rng, w, kind, tests, trials):
+    """(an empty region set, a non-zero integrand of the kind that is written over such a set)"""
+    from sympde.calculus import jump
+    E = rng.choice(w.empties)
+    su = [t for t in trials if not isinstance(t, w.m['VectorFunction'])]
+    sv = [t for t in tests if not isinstance(t, w.m['VectorFunction'])]
+    if kind == 'bilinear':
+        if E.label == 'interfaces' and su and sv:
+            return E, rng.choice(w.csts) * jump(su[0]) * jump(sv[0])
+        u0, v0 = rng.choice(trials), rng.choice(tests)
+        e = pair(rng, w, u0, v0, True)
+        if e == 0:
+            sc = lambda t: w.m['dot'](w.vfield, t) if isinstance(t, w.m['VectorFunction']) else t
+            e = sc(u0) * sc(v0)
+        return E, rng.choice([1, 2, 3]) * rng.choice(w.fields) * e
+    return E, rng.choice([2, 3]) * rng.choice(w.fields) * single(rng, w, rng.choice(tests), True)
+
+
+def without_empty(ints, style):
+    """the same form with the integrals over empty region sets left out"""
+    keep = [i for i, (r, _) in enumerate(ints) if not is_empty(r)]
+    return [ints[i] for i in keep], (None if style is None else (style[0], tuple(style[1][i] for i in keep)))
 
 
 STARTS = {'first': None, 'int0': 0, 'Zero': S.Zero}
@@ -225,7 +279,9 @@ def describe(ints, style):
 
 
 def build(w, kind, tests, trials, ints, style=None):
-    m = w.m
+    m = dict(w.m)
+    _integral = m['integral']
+    m['integral'] = lambda r, e: _integral(r.value if is_empty(r) else r, e)    # an empty region set: see Empty
     if style is None or kind == 'functional':
         expr = sum((m['integral'](r, e) for r, e in ints[1:]), m['integral'](*ints[0]))
     else:
@@ -249,6 +305,8 @@ def build(w, kind, tests, trials, ints, style=None):
 def members(w, reg):
     """regions of an integration domain as TerminalExpr attributes them"""
     m = w.m
+    if is_empty(reg):
+        return []
     if isinstance(reg, m['Union']):
         out = []
         for r in reg.args:
@@ -292,6 +350,21 @@ def analyse(ctx, w, kind, tests, trials, ints, c, o, style=None, label=None):
     except Exception as ex:
         if o is not None:
             o.count('construction-refused:' + type(ex).__name__)
+            if any(is_empty(r) for r, _ in ints):
+                # an integral over an empty region set contributes nothing: the form can be built whenever the same
+                # form without that integral can (and is the zero form when nothing else is left)
+                rest, rstyle = without_empty(ints, style)
+                try:
+                    if rest:
+                        build(w, kind, tests, trials, rest, rstyle)
+                    refused_anyway = False
+                except Exception:
+                    refused_anyway = True
+                if not refused_anyway:
+                    o.fail('empty-region:' + name, 'building the form %s raised %s (%s); its integral over an empty region '
+                           'set contributes nothing, and the same form without that integral %s' % (
+                               name, type(ex).__name__, str(ex)[:200],
+                               'is accepted: ' + describe(rest, rstyle) if rest else 'is the zero form'))
         return None
     if not hasattr(form, 'variables') and not hasattr(form, 'is_functional'):
         if o is not None:
@@ -402,6 +475,32 @@ def fixed_corpus(world):
                 ('int0', ('-', '+')))
             add('acc0-minus-side-face-first', 'bilinear', [v], [u],
                 [(w.side_faces[0], -f * u * v), (w.I, cc * jump(u) * jump(v)), (D, u * v)], ('int0', ('-', '+', '+')))
+        # ---- integrals over an EMPTY region set (no Neumann part, no face selected, no interface on one patch)
+        # next to ordinary ones: added after seeded change C06-10
+        E = {e_.label: e_ for e_ in w.empties}
+        EN, EU = E['boundary.complement(boundary)'], E['Union()']
+        stiff = dot(grad(u), grad(v))
+        add('empty-neumann-bilinear', 'bilinear', [v], [u], [(D, stiff), (EN, 2 * u * v)])
+        add('empty-neumann-linear', 'linear', [v], [u], [(D, f * v), (EN, 3 * g * v)])
+        add('empty-neumann-and-face', 'bilinear', [v], [u], [(D, stiff), (EN, 2 * u * v), (G1, cc * u * v)])
+        add('empty-union-first', 'bilinear', [v], [u], [(EU, g * u * v), (D, u * v), (GG, 2 * u * v)])
+        add('empty-only', 'bilinear', [v], [u], [(EN, u * v)])
+        add('empty-only-linear', 'linear', [v], [u], [(EU, g * v)])
+        add('empty-acc0-minus-first', 'bilinear', [v], [u], [(EN, -f * u * v), (G1, -u * v), (D, u * v)],
+            ('int0', ('-', '-', '+')))
+        add('empty-minus-last', 'linear', [v], [u], [(D, f * v), (G2, g * v), (EN, -g * v)], ('first', ('+', '+', '-')))
+        add('empty-neumann-system', 'bilinear', [Vt, q], [U, p],
+            [(D, inner(grad(U), grad(Vt)) - p * div(Vt) + q * div(U)), (EN, dot(U, nn) * q + p * dot(Vt, nn))])
+        add('empty-neumann-rect', 'bilinear', [q], [U, p], [(EN, dot(U, nn) * q), (D, div(U) * q + 3 * p * q)])
+        if 'interfaces' in E:
+            add('empty-interfaces-dg', 'bilinear', [v], [u],
+                [(D, stiff), (E['interfaces'], kk * jump(u) * jump(v)), (EN, 2 * u * v)])
+            add('empty-interfaces-mixed-bc', 'bilinear', [v], [u],
+                [(D, stiff), (E['interfaces'], kk * jump(u) * jump(v)), (GG, 2 * u * v)])
+            add('empty-interfaces-linear', 'linear', [v], [u], [(E['interfaces'], g * jump(v)), (D, f * v)])
+        else:
+            add('empty-neumann-with-interface', 'bilinear', [v], [u],
+                [(D, stiff), (w.I, kk * jump(u) * jump(v)), (EN, 2 * u * v)])
     return out
 
 
@@ -520,7 +619,7 @@ def run(ctx, n, c, o):
                 e = sum((ints[b][1] for b in bodies), S.Zero)
                 reg_obj = [r for reg, _ in ints for r in members(w, reg) if str(r) == rname][0]
                 vanish = expand_lowered(w, e, reg_obj) == 0
-                if (rname in impl_regs) == vanish and len(impl_regs) > 0 and not all(expand_lowered(w, ee, members(w, rr)[0]) == 0 for rr, ee in ints):
+                if (rname in impl_regs) == vanish and len(impl_regs) > 0 and not all(expand_lowered(w, ee, members(w, rr)[0]) == 0 for rr, ee in ints if members(w, rr)):
                     c.disagreements.append({'input': line[:300], 'impl': sorted(impl_regs), 'model': sorted(model), 'note': 'regions'})
             if len(model) >= 2:
                 c.nontrivial.add(line)
